@@ -10,7 +10,9 @@ GEN_MODULES = ("Tables", "Helpers", "RsHelpers")
 MIN_THEOREMS = 19
 RULE = ("ops: isleap/islong/diy for every year 1..9999; weekday/getters on dates (quick: every date of 12 pattern years, "
         "every month start/end of every year, random dates; thorough: all 3,652,059 dates); localtime on day boundaries "
-        "-1s/0/+1s and random seconds x offsets -86399..86399 over years 1..9999. non-trivial = distinct op whose year is a "
+        "-1s/0/+1s and random seconds x offsets -86399..86399 over years 1..9999, plus the chunk boundaries of the algorithm (every century "
+        "and 400-year start, sampled/all year and month starts) x offsets of either sign with the UTC instant and the local reading on "
+        "either side of the boundary. non-trivial = distinct op whose year is a "
         "leap/century/long year or whose date is a month/year boundary or whose timestamp is within 1 s of a day boundary "
         "or negative")
 EXHAUSTIVE = {"quick": False, "thorough": True}
@@ -75,6 +77,21 @@ def gen_ops(rng, tier):
                     if MIN_TS <= t <= MAX_TS:
                         yield ("localtime", t, 0)
         n_rand = 40_000 if tier == "quick" else 400_000
+    # structural boundaries of the local_time algorithm (400/100/4/1-year chunks, month starts) approached with a non-zero offset:
+    # the UTC instant and the local reading fall on different sides of the boundary
+    ys = set(range(400, 10000, 400)) | set(range(100, 10000, 100)) | {1, 2, 4, 5, 1600, 1601, 1969, 1970, 1971, 1999, 2000, 2001, 9996, 9999}
+    if tier != "quick":
+        ys |= set(range(1, 10000))
+    else:
+        ys |= set(rng.sample(range(1, 10000), 150))
+    for y in sorted(ys):
+        for (m, dd) in ((1, 1), (3, 1)) + (((rng.randint(2, 12), 1),) if tier == "quick" else tuple((mm, 1) for mm in range(2, 13))):
+            b = (dt.date(y, m, dd).toordinal() - 719163) * 86400
+            offs = (1, -1, 3600, -3600, 18000, -18000, 86399, -86399, rng.randint(-86399, 86399))
+            for off in (offs if (y % 100 == 0 or tier != "quick") else rng.sample(offs, 3)):
+                for t in (b - off - 1, b - off, b - off + 1, b - 1, b, b + 1):
+                    if MIN_TS + 86400 <= t <= MAX_TS - 86400:
+                        yield ("localtime", t, off)
     for _ in range(n_rand):
         o = rng.randint(1, 3652059)
         d = dt.date.fromordinal(o)
